@@ -26,7 +26,7 @@ FRAGMENTS = [
     '#...meta: format=json, length=12\n', '#...diff: length=3\n',
     '#.preamble: indent=4, length=10\n', '#.meta: length=3\n', '{}\n',
     '{\n    "a": 1\n}\n', '--- a\n+++ b\n', '@@ -1 +1 @@\n', '+x\n', '-y\n',
-    ' z\n', '...\n', 'delta 12\n', '#diffx: 1.0\n', '#.change: wip\n',
+    ' z\n', '...\n', 'delta 12\n', 'literal 12\n', 'literal 5\r\n', 'delta 1\r\n', '#diffx: 1.0\n', '#.change: wip\n',
     '#..file: \n', '#', '#.', '#..', '#...', ':', ' ', '\n', '\r\n', '\r',
     'Index: foo\n', 'diff --git a b\n', '# comment\n', '#...diff:\n# HG\n',
     '#.preamble: length=3\n# H\n', 'length', '=', ', ', '\x00', '﻿',
